@@ -23,12 +23,12 @@ func SmartDurationString(d time.Duration) string { return SmartDurationStringEx(
 func SmartDurationStringEx(d time.Duration, frac bool) string { return shortDur(d, frac) }
 
 func shortDur(d time.Duration, frac bool) string {
-	var arr [32]byte
+	var arr [40]byte
 	n := shortDurFormat(&arr, d, frac)
 	return string(arr[n:])
 }
 
-func shortDurFormat(buf *[32]byte, d time.Duration, useFrac bool) int { //nolint:revive
+func shortDurFormat(buf *[40]byte, d time.Duration, useFrac bool) int { //nolint:revive
 	// Largest time is:
 	// 2540400h10m10.000000000s
 	// 2540400h10m10s999ms999us999na
